@@ -54,11 +54,15 @@ class Property:
     def model_args(self, profile):
         return [profile]
 
+    def project(self, line):
+        """The part of an output line this property is about (applied to both sides before they are compared)."""
+        return line
+
 
 def execute(P, cases, profile, exes):
     impl = core.run_sharded(exes["impl_" + profile], cases, tag=P.id + ".impl", shards=P.shards)
     model = core.run_sharded(exes["model"], cases, extra_args=P.model_args(profile), tag=P.id + ".model", shards=P.shards)
-    return impl, model
+    return [P.project(l) for l in impl], [P.project(l) for l in model]
 
 
 def shrink(P, case, profile, exes, failing):
